@@ -45,12 +45,16 @@ vars == << mode, s, e, m, x >>
 Mans == { 0, 1, 2, 3, 4, 5, 6, 7, 8, 4194300, 4194304, 4194305, 8388600, 8388604,
           8388605, 8388606, 8388607, 5592405, 2796202, 1048576, 2097155, 6291458 }
 
-Init ==
-  \/ mode = "float" /\ s \in 0..1 /\ e \in 0..255 /\ m \in Mans /\ x = 0
-  \/ mode = "grid"  /\ s = 0 /\ e = 0 /\ m \in {0, 1, 2} /\ x \in -8300..8300
-  \/ mode = "byte1" /\ s = 0 /\ e = 0 /\ m = 0 /\ x \in 0..127
-  \/ mode = "byte2" /\ s = 0 /\ e = 0 /\ m = 0 /\ x \in 0..16383
-Next == FALSE /\ UNCHANGED vars
+(* a root state, 256 "pick" states (one per exponent / residue), then the cases: *)
+(* TLC's workers share the picks                                                *)
+Init == mode = "init" /\ s = 0 /\ e = 0 /\ m = 0 /\ x = 0
+Next ==
+  \/ mode = "init" /\ mode' = "pick" /\ e' \in 0..255 /\ s' = 0 /\ m' = 0 /\ x' = 0
+  \/ /\ mode = "pick"
+     /\ \/ mode' = "float" /\ s' \in 0..1 /\ e' = e /\ m' \in Mans /\ x' = 0
+        \/ mode' = "grid"  /\ s' = 0 /\ e' = 0 /\ m' \in {0, 1, 2} /\ x' \in { y \in -8300..8300 : y % 256 = e }
+        \/ mode' = "byte1" /\ s' = 0 /\ e' = 0 /\ m' = 0 /\ e < 128 /\ x' = e
+        \/ mode' = "byte2" /\ s' = 0 /\ e' = 0 /\ m' = 0 /\ x' \in { y \in 0..16383 : y % 256 = e }
 Spec == Init /\ [][Next]_vars
 
 V == IF mode = "float" THEN Bits(s, e, m)
